@@ -23,7 +23,7 @@ class Crash(Exception):
 # KeyError / AttributeError in look-ups, ...): a resolver raising one of them is still unexpected
 CRASH_CLASSES = [Crash] + [type("Crash" + b.__name__, (Crash, b), {})
                            for b in (IndexError, IndexError, IndexError, KeyError, KeyError, AttributeError, TypeError, ValueError, LookupError,
-                                     AssertionError, RuntimeError, StopIteration)]
+                                     AssertionError, RuntimeError)]
 
 
 DISTINCT_CRASH_CLASSES = []
@@ -31,6 +31,10 @@ for _c in CRASH_CLASSES:
     if _c.__name__ not in [x.__name__ for x in DISTINCT_CRASH_CLASSES]:
         DISTINCT_CRASH_CLASSES.append(_c)
 
+
+# StopIteration cannot travel through generators, coroutines and futures as it is (PEP 479): only where a check
+# asks for it by name
+DISTINCT_CRASH_CLASSES.append(type("CrashStopIteration", (Crash, StopIteration), {}))
 
 _LIBRARY_CRASH = []
 
@@ -419,6 +423,52 @@ class LazyObject(object):
         return value
 
 
+class EqualResolver(object):
+    """Equal to (and hashing like) every other instance, interchangeable with none."""
+
+    def __init__(self, fn):
+        self.fn = fn
+        self.__name__ = fn.__name__
+
+    def __call__(this, parent, context, info, /, **kwargs):      # arguments may be called `self`
+        return this.fn(parent, context, info, **kwargs)
+
+    def __eq__(self, other):
+        return isinstance(other, EqualResolver)
+
+    def __hash__(self):
+        return 7
+
+
+class UnhashableResolver(object):
+    def __init__(self, fn):
+        self.fn = fn
+        self.__name__ = fn.__name__
+
+    def __call__(this, parent, context, info, /, **kwargs):
+        return this.fn(parent, context, info, **kwargs)
+
+    def __eq__(self, other):
+        return isinstance(other, UnhashableResolver) and other.fn is self.fn
+
+    __hash__ = None
+
+
+class FalsyResolver(object):
+    def __init__(self, fn):
+        self.fn = fn
+        self.__name__ = fn.__name__
+
+    def __call__(this, parent, context, info, /, **kwargs):
+        return this.fn(parent, context, info, **kwargs)
+
+    def __len__(self):
+        return 0
+
+
+RESOLVER_OBJECT_CLASSES = [EqualResolver, UnhashableResolver, FalsyResolver]
+
+
 class Binding(object):
     """Turns world outcomes into python values for the library and records invocations."""
 
@@ -577,6 +627,11 @@ class Binding(object):
                 return awaitable_resolver
             return aresolver
         resolver.__name__ = "resolve_%s_%s" % (typename, fieldname)
+        sel = int(h64("resolver-object:%s.%s" % (typename, fieldname))[:4], 16) % 12
+        if sel < 3 and not getattr(self, "plain_function_resolvers_only", False):
+            # resolvers are arbitrary callables: objects that compare equal to one another (frozen dataclasses with a
+            # field left out of the comparison), that cannot be hashed, or that are falsy (they define __len__)
+            return RESOLVER_OBJECT_CLASSES[sel](resolver)
         return resolver
 
     def _finish(self, obj, f, kwargs, info):
